@@ -91,13 +91,12 @@ fn gen_model(rng: &mut Rng, exhaustive_index: Option<usize>) -> Model {
     let mut counter = 0;
     let mut slots_for = |base: &str, rng: &mut Rng, all: bool| -> Vec<Slot> {
         let mut v = vec![];
-        // one group in six is overridden as a whole. Only T with / without serde(default): for Option<T> the override text
-        // replaces the `T?` / `Option[T]` the backend would have printed, so what the field looks like is the user's own
-        // text (outside the property's quantifier; noted in DESIGN 10.2)
+        // one group in six is overridden as a whole (every backend that has overrides gets one); how its Option<T> slots are
+        // judged depends on the backend, see `judge_group`
         let ovr = !all && rng.chance(1, 6);
         let mut push = |opt: u8, default: u8, wrap: u8, v: &mut Vec<Slot>| {
             counter += 1;
-            v.push(Slot { t: base.to_string(), opt: if ovr { 0 } else { opt }, default, wrap, ident: format!("f{counter}"), ovr });
+            v.push(Slot { t: base.to_string(), opt, default, wrap, ident: format!("f{counter}"), ovr });
         };
         push(0, 0, 0, &mut v); // required sibling
         if all {
@@ -238,6 +237,13 @@ fn check_group(case: &Case<Model>, rep: &mut Report, position: &str, grp: &[Slot
             rep.violate(format!("C04|{lname}|{position}|field-missing"), format!("field {} missing", sl.ident), case.detail(json!(null)));
             return;
         };
+        // Option<T> under a type override: Kotlin, Swift, Scala and Go print the override text in place of `T?` / `*T`, so
+        // what the field looks like is the user's own text (outside the property's quantifier, DESIGN 10.2). TypeScript keeps
+        // the marker outside the type, and Python has no overrides: those two are judged as usual
+        if sl.ovr && sl.opt > 0 && !matches!(case.lang, LangId::Ts | LangId::Python) {
+            rep.count("overridden_option_fields_left_to_the_user", 1);
+            continue;
+        }
         rep.eval(1);
         rep.count(&format!("fields_checked_{lname}"), 1);
         let cls = format!("opt{}|default{}|wrap{}", sl.opt, sl.default, sl.wrap);
